@@ -770,3 +770,68 @@ func (c *Ctx) interpolatedHalf(f *ssa.Function) []ssa.Value {
 	}
 	return out
 }
+
+// BRACESCAN (TPL-7, C07): the end of a `${...}` is found by counting braces, literal ones included. Whatever the
+// scan does with a byte, it looks at every byte: in each loop of package template that compares s[i] with `{` or
+// `}`, the index advances by exactly one per iteration (every back edge of the index carries i+1). A second
+// advance inside the body (skipping the byte after a `{`, after `$$`, ...) can step over a brace, and the
+// substitution then ends one brace early or late.
+func (c *Ctx) BRACESCAN(rule string) []report.Obligation {
+	var out []report.Obligation
+	n := 0
+	for _, fn := range c.P.Funcs {
+		if !strings.HasPrefix(c.P.FuncID(fn), "template.") {
+			continue
+		}
+		seen := map[*ssa.Phi]bool{}
+		for _, b := range fn.Blocks {
+			for _, in := range b.Instrs {
+				bo, ok := in.(*ssa.BinOp)
+				if !ok || (bo.Op != token.EQL && bo.Op != token.NEQ) {
+					continue
+				}
+				k, isC := constInt(bo.Y)
+				if !isC || (k != '{' && k != '}') {
+					continue
+				}
+				var str, index ssa.Value
+				switch x := bo.X.(type) {
+				case *ssa.Lookup:
+					str, index = x.X, x.Index
+				case *ssa.Index:
+					str, index = x.X, x.Index
+				}
+				if str == nil || !isStringType(str.Type()) {
+					continue
+				}
+				idx, isPhi := index.(*ssa.Phi)
+				if !isPhi || seen[idx] {
+					continue
+				}
+				seen[idx] = true
+				n++
+				good, why := true, ""
+				for i, e := range idx.Edges {
+					pred := idx.Block().Preds[i]
+					if !idx.Block().Dominates(pred) {
+						continue // entry edge
+					}
+					add, isAdd := e.(*ssa.BinOp)
+					one, isOne := int64(0), false
+					if isAdd {
+						one, isOne = constInt(add.Y)
+					}
+					if !isAdd || add.Op != token.ADD || add.X != ssa.Value(idx) || !isOne || one != 1 {
+						good, why = false, c.P.KeyTerm(e, 3)
+					}
+				}
+				out = append(out, verdict(good, rule, c.P.FuncID(fn)+" :: brace scan examines every byte", c.P.InstrPos(idx),
+					"every back edge of the scan index carries index+1", "the scan index is advanced inside the loop body as well ("+why+"): the byte stepped over may be a brace, and the substitution then ends at the wrong one"))
+			}
+		}
+	}
+	if n == 0 {
+		out = append(out, bad(rule, "template :: brace scan", "", "no loop comparing s[i] with a brace found in package template: the rule sees nothing"))
+	}
+	return out
+}
